@@ -446,6 +446,7 @@ func (c *caseRun) probe() {
 	if p.Held.Open && c.held != nil {
 		o.readAll(c.held, readOpts{path: "held accessor", tag: obsTag(p.Held.Obs), validated: true, pred: &p.Held.Obs, warmFrac: wf})
 	}
+	first := true
 	open := func(name string, get func() (eds.AccessorStreamer, error), op *OpenPred, sigpath string) {
 		acc, err := get()
 		if err != nil {
@@ -465,7 +466,8 @@ func (c *caseRun) probe() {
 			pred, tag = nil, "wrapped:unknown"
 		}
 		c.count("open_"+sigpath+"_"+op.Via, 1)
-		o.readAll(acc, readOpts{path: name, tag: tag, validated: true, pred: pred, warmFrac: wf})
+		o.readAll(acc, readOpts{path: name, tag: tag, validated: true, pred: pred, warmFrac: wf, fewRanges: !first})
+		first = false
 		if err := acc.Close(); err != nil {
 			c.drift("%s: Close: %v", name, err)
 		}
@@ -501,7 +503,7 @@ func (c *caseRun) probe() {
 			c.violate("C05/open/notfound/byhash", fmt.Sprintf("Store.GetByHash of a stored block: %v", err))
 		} else {
 			c.count("open_byhash_file", 1)
-			o.readAll(acc, readOpts{path: "Store.GetByHash", tag: obsTag(p.Byhash.Obs), validated: true, pred: &p.Byhash.Obs, warmFrac: wf})
+			o.readAll(acc, readOpts{path: "Store.GetByHash", tag: obsTag(p.Byhash.Obs), validated: true, pred: &p.Byhash.Obs, warmFrac: wf, fewRanges: true})
 			_ = acc.Close()
 		}
 	}
